@@ -213,10 +213,30 @@ def wrap(stack, how):
     return list(stack)
 
 
+def mk_one(t):
+    if t[0] == "b":
+        return TagFields(t)
+    if t[0] == "c":
+        return AddBlock(t)
+    if t[0] == "l":
+        return TagLib(t)
+    # shipped middlewares (R / E also sit in the default parse stack, A in the default write stack)
+    from bibtexparser import middlewares as SM
+    if t == "R":
+        return SM.ResolveStringReferencesMiddleware(True)
+    if t == "E":
+        return SM.RemoveEnclosingMiddleware(True)
+    if t == "A":
+        return SM.AddEnclosingMiddleware(reuse_previous_enclosing=False, enclose_integers=True, default_enclosing="{", allow_inplace_modification=False)
+    if t == "N":
+        return SM.NormalizeFieldKeys(True)
+    raise ValueError(t)
+
+
 def mk_stack(spec):
     if spec is None:
         return None
-    return [TagFields(t) if t[0] == "b" else (AddBlock(t) if t[0] == "c" else TagLib(t)) for t in spec]
+    return [mk_one(t) for t in spec]
 
 
 def drv_parse(text, stack_spec, append_spec, how):
@@ -352,9 +372,13 @@ def make_file(log, content):
     return Stub("file", {"read": f_read, "write": f_write, "__enter__": f_enter, "__exit__": f_exit})
 
 
-def sym_doc(eng):
+def sym_doc(eng, extra=""):
     k = eng.sym_str("k", 1, "ab")
-    tail = eng.sym_str("t", 2, SIGMA_S)
+    tail = eng.sym_str("t", 2, SIGMA_S + extra)
+    if extra:
+        # file content: one more symbolic character INSIDE a value (line ends / form feeds there belong to the value)
+        inner = eng.sym_str("i", 1, "x \n" + extra)
+        return mk(tuple("@a{") + chars(k) + tuple(", t = {v") + chars(inner) + tuple("z}, u = w}\n") + chars(tail)), (k, tail)
     return mk(tuple("@a{") + chars(k) + tuple(", t = {v}, u = w}\n") + chars(tail)), (k, tail)
 
 
@@ -523,7 +547,7 @@ def task_spliceall():
 def task_files(enc, target_kind):
     eng = Engine()
     rec = Recorder(eng)
-    content, syms = sym_doc(eng)
+    content, syms = sym_doc(eng, "\x0c")      # text read from a file may hold a form feed (a CR never arrives: universal newlines)
     log = []
     install_open(eng, content, log)
     fobj_log = []
@@ -664,7 +688,7 @@ def task_filelog(enc, target_kind, sv=None):
 def main():
     chk = Check("C20", __doc__)
     chk.bounds = {"document": "'@a{K, t = {v}, u = w}' + newline + 2 symbolic characters over the splitter alphabet; K symbolic over {a,b}; and documents that are just 2 symbolic characters (possibly blank) with content-generating probes",
-                  "stacks": "parse_stack / unparse_stack in {None, [], 1, 2, 3 probes}, append / prepend in {None, [], 1, 2 probes}, block and library probes mixed, passed as list / tuple / one-shot iterator",
+                  "shipped middlewares": "ResolveStringReferences / RemoveEnclosing (the default parse stack's classes, one or both) and NormalizeFieldKeys appended or as the stack; AddEnclosing prepended once / twice or in the stack", "stacks": "parse_stack / unparse_stack in {None, [], 1, 2, 3 probes}, append / prepend in {None, [], 1, 2 probes}, block and library probes mixed, passed as list / tuple / one-shot iterator",
                   "splice results": sorted(SPLICE), "splice at transform_block level": "document with String, Preamble, ExplicitComment, ImplicitComment, Entry, duplicate-key (failed) block + 2 symbolic characters; target block type symbolic over S/P/X/I/E/F, result kind symbolic over None, [], block, [a,b], (b,a), [a,a], 5, [a,7], same", "file layer": "open() stub; encodings utf-8/latin-1/gbk/utf-16 passed through; path and file-object targets; the file wrappers with default stacks and with one-shot iterator / empty parse_stack, append_middleware (write_file: its parse_stack / append_middleware arguments) against the string entry points given the same stacks as lists"}
     chk.assumptions = ["real codecs / the OS are outside the claim: open() is a stub that records its arguments; only the pass-through of path/encoding and the equality with parse_string(content) / write_string(...) are claimed",
                        "probe middlewares are the three classes defined in checks/c20.py"]
@@ -681,6 +705,11 @@ def main():
                 if how == "tuple" and not deep and not (st is None):
                     continue
                 chk.add_task(f"{which}-{st}-{ex}-{how}".replace(" ", ""), task_stack, which=which, stack_spec=st, extra_spec=ex, how=how)
+    # shipped middlewares in the argument positions (R, E: the classes of the default parse stack, both at once too)
+    for st, ex in ((None, ["R"]), (None, ["E"]), (None, ["R", "E"]), (None, ["E", "b1", "R"]), (["E", "R"], None), (["N", "b1"], None), (None, ["N"])):
+        chk.add_task(f"parse-shipped-{st}-{ex}".replace(" ", ""), task_stack, which="parse", stack_spec=st, extra_spec=ex, how="list")
+    for st, ex in ((None, ["A"]), (None, ["A", "A"]), (["A", "b1"], None), (None, ["N", "A"])):
+        chk.add_task(f"write-shipped-{st}-{ex}".replace(" ", ""), task_stack, which="write", stack_spec=st, extra_spec=ex, how="list")
     for which in ("parse", "write"):
         for st, ex in ((None, ["c7"]), (["c1", "c2"], None), (["c1"], ["c2"]), ([], []), (None, None), (["c2", "c1"], None), (None, ["c1", "c2"])):
             chk.add_task(f"{which}-blank-{st}-{ex}".replace(" ", ""), task_stack, which=which, stack_spec=st, extra_spec=ex, how="list", doc="blank")
